@@ -49,6 +49,15 @@ def gen_program(rng, i):
     parent_keys = [2]
     prefix = "d"
     for lvl in range(depth):
+        if rng.random() < 0.3:
+            # a sibling created before the role the chain continues with, left as delegate_role creates it; its name
+            # sorts after the other's and its paths overlap: the order of creation is the order of trust
+            sib = "zz-sibling%d" % lvl
+            sk = rng.sample([4, 5, 6, 7, 8, 10, 12], rng.randint(1, 2))
+            prog.append({"op": "delegate_role", "name": sib, "keys": sk, "paths": [prefix + "/*", "s%d/*" % lvl],
+                         "threshold": 1, "expires": 86400 * 40, "version": 1})
+            it.roles[sib] = {"targets": {}, "parent": parent, "keys": sk, "threshold": 1,
+                             "paths": prefix + "/*", "version": 1}
         name = "role%d" % lvl if rng.random() < 0.7 else rng.choice(["r l%d" % lvl, "Ünï%d" % lvl])
         if lvl == depth - 1 and rng.random() < 0.12:
             name = rng.choice(["root", "snapshot", "timestamp", "targets"])   # names of the top-level roles
